@@ -114,7 +114,7 @@ def run(ctx):
         state["evaluations"] += len(ol)
         for op, im, mo in zip(ol, read_lines(impl), read_lines(model)):
             k = op.split(" ", 1)[0]
-            if k in ("rq", "rs", "ask"):
+            if k in ("rq", "rs", "ask", "dq"):
                 distinct.add(op)
             if "MODEL-SPLIT" in mo:
                 ctx.proof_failures.append("driver: scan and first-match specification disagree on " + op[:300])
@@ -136,6 +136,7 @@ def run(ctx):
 
     ok = tie("component/dns", ["component/dns/c07_test.go"], "c07m", "TestVerifC07Matchers", "c07m")
     ok = ok and tie("control", ["control/c07_test.go"], "c07c", "TestVerifC07Controller", "c07c")
+    ok = ok and tie("component/daedns", ["component/daedns/c07_test.go"], "c07d", "TestVerifC07Daedns", "c07d")
     if not ok:
         return 2
     ctx.samples = samples
